@@ -206,6 +206,50 @@ def orientation(tree):
 TESTS = {"self.radialIndex<self.equilibriumRegion.separatrix_radial_index": "radialIndex < sepIndex"}
 
 
+def rz_boundary(tree):
+    """MeshRegion.getRZBoundary: the guard (as a Boolean function of `has an upper neighbour`, `that neighbour is this region itself`)
+    and the list of copies (array, location, target index, source index) made under it"""
+    fn = class_method(tree, "MeshRegion", "getRZBoundary")
+    ifs = [st for st in fn.body if isinstance(st, ast.If)]
+    others = [st for st in fn.body if not isinstance(st, (ast.If, ast.Expr))]
+    if len(ifs) != 1 or others or ifs[0].orelse:
+        raise py2lean.Unsupported("getRZBoundary is not a single guarded block")
+
+    def guard(e):
+        t = ast.unparse(e).replace(" ", "").replace('"', "'")
+        if t == "self.connections['upper']isnotNone":
+            return "hasUpper"
+        if t in ("upisnotself", "self.getNeighbour('upper')isnotself"):
+            return "(!upperIsSelf)"
+        if t in ("upisnotNone",):
+            return "hasUpper"
+        if isinstance(e, ast.BoolOp) and isinstance(e.op, ast.And):
+            return "(" + " && ".join(guard(v) for v in e.values) + ")"
+        raise py2lean.Unsupported("getRZBoundary guard: " + t)
+
+    g = guard(ifs[0].test)
+    copies = []
+    for st in ifs[0].body:
+        if isinstance(st, ast.Assign) and isinstance(st.targets[0], ast.Name) and st.targets[0].id == "up":
+            if ast.unparse(st.value).replace('"', "'") != "self.getNeighbour('upper')":
+                raise py2lean.Unsupported("getRZBoundary: up = " + ast.unparse(st.value))
+            continue
+        if isinstance(st, ast.If):
+            # a nested guard: fold it into the outer one
+            g = "(" + g + " && " + guard(st.test) + ")"
+            body = st.body
+        else:
+            body = [st]
+        for b in body:
+            if isinstance(b, ast.Assign) and isinstance(b.targets[0], ast.Name) and b.targets[0].id == "up":
+                continue
+            m = __import__("re").fullmatch(r"self\.(Rxy|Zxy)\.(ylow|corners)\[:,(-?\d+)\]=up\.(Rxy|Zxy)\.(ylow|corners)\[:,(-?\d+)\]", ast.unparse(b).replace(" ", ""))
+            if not m or m.group(1) != m.group(4) or m.group(2) != m.group(5):
+                raise py2lean.Unsupported("getRZBoundary statement: " + ast.unparse(b)[:80])
+            copies.append((m.group(1), m.group(2), int(m.group(3)), int(m.group(6))))
+    return g, copies
+
+
 def generate(repo=None):
     repo = repo or vlib.REPO
     tree = ast.parse(open(os.path.join(repo, SRC)).read())
@@ -216,7 +260,8 @@ def generate(repo=None):
     for t in (t1, t2):
         if t not in TESTS:
             raise py2lean.Unsupported("orientation test not translatable: " + t)
-    return {"init": init, "regrid": regrid, "par": par, "pins": pins, "t1": TESTS[t1], "t2": TESTS[t2]}
+    rzg, rzc = rz_boundary(tree)
+    return {"init": init, "regrid": regrid, "par": par, "pins": pins, "t1": TESTS[t1], "t2": TESTS[t2], "rzg": rzg, "rzc": rzc}
 
 
 def emit(d):
@@ -247,7 +292,13 @@ def emit(d):
     L += ["", "/-- MeshRegion.__init__: psi_vals are followed in reverse iff this holds … -/",
           "def reverseBefore (radialIndex sepIndex : Nat) : Bool := decide (%s)" % d["t1"],
           "/-- … and the followed lines are reversed back iff this holds -/",
-          "def reverseAfter (radialIndex sepIndex : Nat) : Bool := decide (%s)" % d["t2"], "", "end Gen.Pipeline", ""]
+          "def reverseAfter (radialIndex sepIndex : Nat) : Bool := decide (%s)" % d["t2"], "",
+          "/-- MeshRegion.getRZBoundary: whether the upper edge of a region is overwritten with the lower edge of its upper neighbour, given",
+          "whether it has an upper neighbour and whether that neighbour is the region itself (the periodic core of a single null) -/",
+          "def rzCopyGuard (hasUpper upperIsSelf : Bool) : Bool := %s" % d["rzg"],
+          "/-- … and the copies made: (array, location, target python index in y, source python index in y) -/",
+          "def rzCopies : List (String × String × Int × Int) :=\n  [%s]" % ", ".join('("%s", "%s", %d, %d)' % c for c in d["rzc"]),
+          "", "end Gen.Pipeline", ""]
     return "\n".join(L)
 
 
